@@ -252,6 +252,8 @@ case("C18", "C18-b-noncapture", "benign", "filters wrapped in a non-capturing gr
 
 case("C18", "C18-seed2", "mutant", "seeded: platform digest cached under the index digest alone",
      patch="seeded/C18-2/patch.diff", expect=[("C18.R4", "getPlatformDigest", "store into cache")])
+case("C05", "C05-seed3", "mutant", "seeded: no chunked fall-back when the registry refused the single PUT with a 4xx",
+     patch="seeded/C05-3/patch.diff", expect=[("C05.R3", "BlobPut", "fall-back taken whenever the source rewinds")])
 case("C09", "C09-seed3", "mutant", "seeded: Docker import hoists the list entry into a local before the selection by name",
      patch="seeded/C09-3/patch.diff", expect=[("C09.R8", "imageImportDockerAddLayerHandlers", "read of the manifest.json list")])
 case("C09", "C09-b-hoist", "benign", "the selected entry hoisted into a local after the selection",
